@@ -127,3 +127,46 @@ pub fn minimize_str(input: &str, fails: &mut dyn FnMut(&str) -> bool, max_tests:
     }
     cur.into_iter().collect()
 }
+
+/// A writer that follows the `io::Write` contract but is as unhelpful as the contract allows:
+/// each `write` accepts at most the next scheduled number of bytes (at least one), and now and
+/// then fails with `Interrupted` (which `write_all` must retry). A serializer that calls `write`
+/// where it means `write_all` loses data here and nowhere else.
+pub struct ChoppyWriter {
+    pub out: Vec<u8>,
+    sizes: Vec<usize>,
+    k: usize,
+    pub short_writes: u64,
+}
+
+impl ChoppyWriter {
+    pub fn new(seed: u64) -> ChoppyWriter {
+        let sizes = match seed % 5 {
+            0 => vec![1],
+            1 => vec![2, 1, 3],
+            2 => vec![7, 0, 1000],
+            3 => vec![63, 64, 65, 1],
+            _ => vec![(seed % 97 + 1) as usize, 0, (seed % 13 + 1) as usize, 4096],
+        };
+        ChoppyWriter { out: Vec::new(), sizes, k: 0, short_writes: 0 }
+    }
+}
+
+impl std::io::Write for ChoppyWriter {
+    fn write(&mut self, buf: &[u8]) -> std::io::Result<usize> {
+        let want = self.sizes[self.k % self.sizes.len()];
+        self.k += 1;
+        if want == 0 {
+            return Err(std::io::Error::new(std::io::ErrorKind::Interrupted, "again"));
+        }
+        let n = want.min(buf.len());
+        if n < buf.len() {
+            self.short_writes += 1;
+        }
+        self.out.extend_from_slice(&buf[..n]);
+        Ok(n)
+    }
+    fn flush(&mut self) -> std::io::Result<()> {
+        Ok(())
+    }
+}
